@@ -36,7 +36,6 @@ type trCall struct {
 	seq  uint64
 	id   uint16
 	n    int
-	done bool // frame seen in the write log
 }
 
 type trBatch struct {
@@ -46,6 +45,7 @@ type trBatch struct {
 	calls     map[uint64]*trCall
 	advs      []*trAdv
 	partial   atomic.Int64 // Write calls that were not whole frames
+	stalled   atomic.Bool
 	cancel    context.CancelFunc
 	okN, errN atomic.Int64
 }
@@ -251,7 +251,7 @@ func runTransportBatch(cfg trCfg) {
 		runtime.GOMAXPROCS(cfg.Procs)
 		defer runtime.GOMAXPROCS(16)
 	}
-	ctx, cancel := context.WithTimeout(context.Background(), 60*time.Second)
+	ctx, cancel := context.WithTimeout(context.Background(), 120*time.Second)
 	defer cancel()
 	b := &trBatch{cfg: cfg, net: fakenet.NewNet(), calls: map[uint64]*trCall{}, cancel: cancel}
 	tr := b.makeTransport()
@@ -270,12 +270,25 @@ func runTransportBatch(cfg trCfg) {
 				b.mu.Lock()
 				b.calls[seq] = cl
 				b.mu.Unlock()
-				r, err := tr.exchange(ctx, q)
+				cctx, ccancel := context.WithTimeout(ctx, 8*time.Second)
+				r, err := tr.exchange(cctx, q)
+				callTimedOut := cctx.Err() != nil
+				ccancel()
 				rep.Eval(1)
 				if err != nil {
 					b.errN.Add(1)
 					rep.SetAdd("transport_errors", tname+": "+trimErr(err))
-					if ctx.Err() != nil {
+					if !callTimedOut && b.anyConnClosed() {
+						// the peer answers every intact query with an intact frame and never
+						// closes or fails: a transport that gives up its connection here
+						// rejected a valid frame
+						rep.Violation(tname+"-intact-reply-rejected", fmt.Sprintf("the peer sent only intact frames, yet the exchange failed (%s) and the transport closed its connection", trimErr(err)), map[string]any{"cfg": cfg, "seq": seq, "reply_len": cfg.replySize(seq)})
+					}
+					if callTimedOut {
+						// the peer could not answer (it answers every intact query frame at
+						// once): stop the batch, the write log decides
+						b.stalled.Store(true)
+						cancel()
 						return
 					}
 					continue
@@ -299,38 +312,43 @@ func runTransportBatch(cfg trCfg) {
 	}
 	close(start)
 	wg.Wait()
-	timedOut := ctx.Err() != nil && b.partial.Load() == 0
+	tr.close()
+	b.mu.Lock()
+	advs := append([]*trAdv(nil), b.advs...)
+	b.mu.Unlock()
 
 	// verdict on the query direction: the concatenation of the Write calls of
 	// every connection, in the order the connection serialised them.
 	frames, writes := 0, 0
-	for _, a := range b.advs {
+	clean := true
+	for _, a := range advs {
 		ws := a.c.Writes()
 		writes += len(ws)
-		frames += b.verifyWriteLog(a, ws)
+		n, ok := b.verifyWriteLog(a, ws)
+		frames += n
+		clean = clean && ok
 	}
-	tr.close()
+	if b.stalled.Load() && clean {
+		rep.Inconclusive("transport batch %+v: a call got no reply within 8 s although every write log deframes cleanly", cfg)
+	}
 	rep.Count("transport_query_frames_verified", int64(frames))
 	rep.Count("transport_write_calls", int64(writes))
 	rep.Count("transport_calls_ok", b.okN.Load())
 	rep.Count("transport_calls_err", b.errN.Load())
-	rep.Count("transport_connections", int64(len(b.advs)))
+	rep.Count("transport_connections", int64(len(advs)))
 	if b.partial.Load() > 0 {
 		rep.Count("transport_write_calls_not_whole_frames", b.partial.Load())
-	}
-	if timedOut {
-		rep.Inconclusive("transport batch %+v hit the 60 s watchdog", cfg)
 	}
 	if frames > 0 && b.okN.Load() > 0 {
 		rep.Nontrivial(fmt.Sprintf("tr|%s|c%d|p%d|q%d|k%d|g%d|%x", tname, cfg.Callers, cfg.PerCaller, cfg.QBig, cfg.Chunk, cfg.Procs, cfg.Seed))
 	}
 	if rep.WantSample() && cfg.Callers >= 32 {
-		rep.Sample(map[string]any{"transport_batch": cfg, "query_frames_verified": frames, "write_calls": writes, "replies_ok": b.okN.Load(), "errors": b.errN.Load(), "connections": len(b.advs)})
+		rep.Sample(map[string]any{"transport_batch": cfg, "query_frames_verified": frames, "write_calls": writes, "replies_ok": b.okN.Load(), "errors": b.errN.Load(), "connections": len(advs)})
 	}
 }
 
 // verifyWriteLog deframes one connection's serialised write stream.
-func (b *trBatch) verifyWriteLog(a *trAdv, ws []fakenet.WriteRec) int {
+func (b *trBatch) verifyWriteLog(a *trAdv, ws []fakenet.WriteRec) (int, bool) {
 	cfg := b.cfg
 	tname := cfg.Transport
 	var stream []byte
@@ -338,6 +356,7 @@ func (b *trBatch) verifyWriteLog(a *trAdv, ws []fakenet.WriteRec) int {
 		stream = append(stream, w.Data...)
 	}
 	frames := 0
+	seen := map[uint64]bool{} // per connection: a retry on another connection is legitimate
 	var d wire.Deframer
 	for i, f := range d.Feed(stream) {
 		bad := ""
@@ -351,8 +370,8 @@ func (b *trBatch) verifyWriteLog(a *trAdv, ws []fakenet.WriteRec) int {
 				bad = "frame carries the tag of no query issued"
 			case cl.n != len(f):
 				bad = fmt.Sprintf("query was %d bytes, frame is %d", cl.n, len(f))
-			case cl.done:
-				bad = "query framed twice on a stream connection"
+			case seen[cl.seq]:
+				bad = "query framed twice on one stream connection"
 			default:
 				want := trMessage(0, cl.seq, cfg.Seed, cl.n)
 				if !bytes.Equal(f[2:], want[2:]) {
@@ -362,15 +381,16 @@ func (b *trBatch) verifyWriteLog(a *trAdv, ws []fakenet.WriteRec) int {
 		}
 		if bad != "" {
 			rep.Violation(tname+"-query-stream-misframed", fmt.Sprintf("%d concurrent callers: frame %d in the serialised write stream of connection %d is not an intact query (%s); %d Write calls", cfg.Callers, i, a.c.ID, bad, len(ws)), map[string]any{"cfg": cfg, "frame_head": hexHead(f, 40), "first_writes": writeSizes(ws, 12)})
-			return frames
+			return frames, false
 		}
-		cl.done = true
+		seen[cl.seq] = true
 		frames++
 	}
 	if len(d.Rest()) != 0 {
 		rep.Violation(tname+"-query-stream-misframed", fmt.Sprintf("write stream of connection %d ends inside a frame (%d stray bytes) after all callers returned", a.c.ID, len(d.Rest())), map[string]any{"cfg": cfg, "first_writes": writeSizes(ws, 12)})
+		return frames, false
 	}
-	return frames
+	return frames, true
 }
 
 func writeSizes(ws []fakenet.WriteRec, n int) []int {
@@ -382,6 +402,17 @@ func writeSizes(ws []fakenet.WriteRec, n int) []int {
 		out = append(out, len(w.Data))
 	}
 	return out
+}
+
+func (b *trBatch) anyConnClosed() bool {
+	b.mu.Lock()
+	defer b.mu.Unlock()
+	for _, a := range b.advs {
+		if a.c.IsClosed() {
+			return true
+		}
+	}
+	return false
 }
 
 func (b *trBatch) bytesWritten() int {
@@ -411,7 +442,7 @@ func runTransportRefusals() {
 
 func transportRefuseOne(c refuseCase, tname string) {
 	cfg := trCfg{Kind: "transport", Transport: tname, Callers: 1, Seed: uint64(c.N)}
-	ctx, cancel := context.WithTimeout(context.Background(), 20*time.Second)
+	ctx, cancel := context.WithTimeout(context.Background(), 6*time.Second)
 	defer cancel()
 	b := &trBatch{cfg: cfg, net: fakenet.NewNet(), calls: map[uint64]*trCall{}, cancel: cancel}
 	tr := b.makeTransport()
